@@ -21,6 +21,7 @@ Proj(e) ==
   LET base == CASE e.op = "Create" -> <<e.op, e.h>>
                 [] e.op = "Mark" -> <<e.op, e.h, e.res, e.new>>
                 [] e.op = "Save" -> <<e.op, e.data>>
+                [] e.op = "Retrieve" -> <<e.op, e.m, e.res>>
                 [] OTHER -> <<e.op>>
   IN <<base, e.obs>>
 
